@@ -15,7 +15,7 @@ use crate::core::{
 
 pub static DEF: CheckDef = CheckDef {
     id: "C05",
-    variants: &["static-query", "dynamic-query", "static-mutation", "dynamic-mutation"],
+    variants: &["static-query", "dynamic-query", "static-mutation", "dynamic-mutation", "static-query-repeated-keys", "dynamic-query-repeated-keys"],
     run,
     quick_runs: 100_000,
     thorough_runs: 6_000_000,
@@ -23,7 +23,7 @@ pub static DEF: CheckDef = CheckDef {
     real: &["async-graphql executor (static and dynamic)", "futures-util joins", "request-wide error list"],
     stub: &["async runtime (simulator)", "resolvers and guards (harness, gated)"],
     assumptions: &["resolvers are deterministic functions of their inputs (harness values depend on the parent object only)"],
-    restrictions: &["completion orders are sampled, not enumerated (the property's 'exhaustive up to 6 gated resolvers' is model checking); reach is reported as distinct completion orders", "two faults inside one non-null region race legitimately, so multi-fault plans use nullable fields only"],
+    restrictions: &["completion orders are sampled, not enumerated (the property's 'exhaustive up to 6 gated resolvers' is model checking); reach is reported as distinct completion orders", "two faults inside one non-null region race legitimately, so multi-fault plans (and all plans of the repeated-keys variants) use nullable fields only"],
     expected_probes: &["probe:two-resolvers-in-flight", "probe:completion-order-differs", "probe:error-order-differs"],
 };
 
@@ -35,8 +35,11 @@ fn run(variant: usize) -> CaseOut {
     let mut out = CaseOut::default();
     reset_world();
     let flavour = flavour_of(variant);
-    let op = if variant < 2 { "query" } else { "mutation" };
-    let query = gen_operation(op, GenCfg::default());
+    let op = if variant < 2 || variant >= 4 { "query" } else { "mutation" };
+    // the repeated-keys variants select response keys more than once (every occurrence resolves and
+    // may fail on its own); faults there stay on nullable fields, where nothing races
+    let dup = variant >= 4;
+    let query = gen_operation(op, if dup { GenCfg { dup_keys: true, ..GenCfg::default() } } else { GenCfg::default() });
     set_latency(0, 0);
     let base = run_request("baseline", flavour, 0, &query, Some(Params::default()));
     let Some(base_resp) = base.resp else {
@@ -51,7 +54,7 @@ fn run(variant: usize) -> CaseOut {
     let basel = ExecLike { data: data_of(&base_resp), log: base.log };
     let plan = match draw(3) {
         0 => None,
-        1 => Some(draw_plan(flavour, &basel, 1, false)),
+        1 if !dup => Some(draw_plan(flavour, &basel, 1, false)),
         _ => Some(draw_plan(flavour, &basel, 3, true)),
     };
     if let Some(p) = &plan {
